@@ -2,7 +2,7 @@
     arguments already hex-decoded by the OCaml driver, result printed as one
     canonical line.  The Go (and C++) drivers print the same lines from the
     implementation.  No proofs. *)
-From GFS Require Import Base Dec Regex GenRegex GenPadTables Ranges Pad FrameSet Compress Path Seq Listing Seqinfo Seqls Export GenStorage SpecRange SpecSeq.
+From GFS Require Import Base Dec Regex GenRegex GenPadTables Ranges Pad FrameSet Compress Path Seq Listing Seqinfo Seqls Export GenStorage Fastwalk GenFastwalk SpecRange SpecSeq.
 Local Open Scope Z_scope.
 
 Definition hexd (n : nat) : byte := if Nat.ltb n 10 then (48 + n)%nat else (87 + n)%nat.
@@ -71,6 +71,31 @@ Definition probe_fs (bl : iranges) : bytes :=
   kv "value" (join_with c_comma (map (fun i => optz (rs_value bl i)) (zrange (-2) (Z.to_nat (n + 5))))) ++
   kl "index" (map (rs_index bl) vals) ++
   kv "has" (map (fun v => if rs_contains bl v then 49%nat else 48%nat) vals).
+
+
+(** fastwalk: a tree given as a parent vector (node 0 is the root; parents.[i] < i) and a
+    skip vector; exhaustive exploration of the schedules of the coordinator program that
+    gfsgen translated from fastwalk.go *)
+Fixpoint fw_tree (fuel : nat) (parents : list Z) (skips : list bool) (i : nat) : Fastwalk.tree :=
+  match fuel with
+  | O => Node i false []
+  | S f =>
+    let kids := filter (fun j => andb (Nat.ltb i j) (Z.eqb (nth j parents (-1)) (Z.of_nat i))) (seq 0 (List.length parents)) in
+    Node i (nth i skips false) (map (fw_tree f parents skips) kids)
+  end.
+Definition fw_label (l : Fastwalk.label) : bytes :=
+  match l with
+  | LSend => s2b "S" | LRecvEnq => s2b "E" | LRecvRes => s2b "R"
+  | LTake w => s2b "T" ++ itoa (Z.of_nat w) | LEnqueue w => s2b "Q" ++ itoa (Z.of_nat w)
+  | LFinish w => s2b "F" ++ itoa (Z.of_nat w) | LResult w => s2b "X" ++ itoa (Z.of_nat w)
+  end.
+Definition fw_verdict (v : Fastwalk.verdict) : bytes :=
+  match v with
+  | AllComplete n => s2b "OK complete states=" ++ itoa (Z.of_nat n)
+  | Incomplete sch w => s2b "OK incomplete schedule=" ++ join_with c_comma (map fw_label sch) ++
+                        s2b " walked=" ++ zlist (map Z.of_nat w)
+  | ExploreOutOfFuel => s2b "OUTOFFUEL"
+  end.
 
 (** queries at given indices / values only (huge ranges) *)
 Definition probe_blocks_at (bl : iranges) (idxs vals : list Z) : bytes :=
@@ -406,6 +431,15 @@ Definition dispatch (args : list bytes) : bytes :=
         else if beq which (s2b "houdini") then go R_houdiniPattern N_houdiniPattern
         else if beq which (s2b "udim") then (if rsearch R_udimPattern s then s2b "OK" else s2b "NOMATCH")
         else s2b "BADARGS"
+      | _ => s2b "BADARGS"
+      end
+    else if beq op (s2b "fastwalk") then
+      (* nworkers cap fuel parents skips *)
+      match rest with
+      | [nw; cap; fuel; parents; skips] =>
+        let ps := argzl parents in
+        let root := fw_tree (List.length ps) ps (map (Nat.eqb 49) skips) 0 in
+        fw_verdict (explore (Z.to_nat (argz fuel)) GenFastwalk.coordinator (Z.to_nat (argz nw)) (Z.to_nat (argz cap)) root)
       | _ => s2b "BADARGS"
       end
     else s2b "BADOP"
